@@ -16,8 +16,8 @@ CHECK = {
            'distinct_nontrivial = states holding a duplicate value or (Array) spare capacity; ladders cover capacity arithmetic to length 300'),
   'bounds': {
     'quick': 'length <= 6 (Array white-box, List, Tuple; gcc), <= 5 black-box Array, <= 4 under ASan+UBSan; alphabet 189-273 operations incl. '
-             'every in-range positive and negative index and concat/assign with all 13 sequences of length <= 2 as Array, List and Tuple; ladders to 300 (150 under ASan); plain-struct elements length <= 4 (<= 3 under ASan)',
-    'thorough': 'length <= 8 (Array), <= 9 (List, Tuple), <= 6 black-box, <= 7 under ASan+UBSan; ladders to 1000 / 600 (300 under ASan); plain-struct elements length <= 5 / 6 (<= 4 under ASan)',
+             'every in-range positive and negative index and concat/assign with all 13 sequences of length <= 2 as Array, List and Tuple; ladders to 300 (150 under ASan); plain-struct elements length <= 4 (<= 3 under ASan); *-sfx1 instances: the same alphabet with the last operation of the history in the state key (small universes)',
+    'thorough': 'length <= 8 (Array), <= 9 (List, Tuple), <= 6 black-box, <= 7 under ASan+UBSan; ladders to 1000 / 600 (300 under ASan); plain-struct elements length <= 5 / 6 (<= 4 under ASan); *-sfx1 / *-sfx2 instances: the last one / two operations of the history in the state key',
   },
   'assumptions': [
     'element values beyond {0,1,2} are represented by the universe (the containers look at elements only through assign, eq and lt)',
@@ -53,6 +53,8 @@ CHECK = {
   ],
   'instances': {
     'quick': [
+      # history suffix in the state key (lib/vf_bfs.h suffix=K): the last K operations keep histories apart that end in one visible state
+      S('array3-sfx1', 'base', 'kind=array', 'maxlen=3', 'suffix=1'), S('tuple3-sfx1', 'base', 'kind=tuple', 'maxlen=3', 'suffix=1'), S('list3-sfx1', 'base', 'kind=list', 'maxlen=3', 'suffix=1'),
       S('array6', 'base', 'kind=array', 'maxlen=6'),
       S('list6', 'base', 'kind=list', 'maxlen=6'),
       S('tuple6', 'base', 'kind=tuple', 'maxlen=6'),
@@ -88,6 +90,8 @@ CHECK = {
       S('ladder-array-asan', 'asan', 'mode=ladder', 'kind=array', 'ladder_n=150'),
     ],
     'thorough': [
+      # history suffix in the state key (lib/vf_bfs.h suffix=K): the last K operations keep histories apart that end in one visible state
+      S('array4-sfx1', 'base', 'kind=array', 'maxlen=4', 'suffix=1'), S('tuple4-sfx1', 'base', 'kind=tuple', 'maxlen=4', 'suffix=1'), S('list4-sfx1', 'base', 'kind=list', 'maxlen=4', 'suffix=1'), S('list3-light-sfx1', 'base', 'kind=list', 'maxlen=3', 'nvals=2', 'oracle=light', 'suffix=1'),
       S('array8', 'base', 'kind=array', 'maxlen=8'),
       S('list9', 'base', 'kind=list', 'maxlen=9'),
       S('tuple9', 'base', 'kind=tuple', 'maxlen=9'),
